@@ -78,6 +78,15 @@ Theorem C15_site_client_title_partial : forall version t rest, safe_doc_raw vers
 Proof. exact client_title_inert. Qed.
 Print Assumptions C15_site_client_title_partial.
 
+(* ---- enum-typed default: the text is used UNQUOTED as an attribute name; it is an identifier for text made of
+   ASCII letters, digits, underscore, dash, space that does not start with a digit *)
+Theorem C15_site_enum_default_partial : forall t, safe_enum_default t = true -> is_ident (site_enum_default t) = true.
+Proof. exact enum_default_ident. Qed.
+Print Assumptions C15_site_enum_default_partial.
+Theorem C15_refuted_F15l : safe_enum_default w_quote = false /\ is_ident (site_enum_default w_quote) = false.
+Proof. exact enum_default_refuted. Qed.
+Print Assumptions C15_refuted_F15l.
+
 (* ---- comment site *)
 Theorem C15_site_field_comment_partial : forall t, safe_field_comment t = true ->
   single_physical_line (site_field_comment t) = true.
